@@ -182,6 +182,8 @@ def run(tier, seed):
       'long-list': (dict(good, b=dict(good['b'], **{'2': np.zeros(1)})), 'b'),
       'namedtuple-fields': (dict(good, p={'left': 1, 'middle': 2}), 'p'),
       'dataclass-fields': (dict(good, d={'w': 1, 'stepp': 2}), 'd'),
+      # a saved entry named after a STATIC field of the dataclass is not part of its state either
+      'dataclass-static-field-name': (dict(good, d={'w': 1, 'step': 2, 'tag': 'x'}), 'd'),
     }
     for nm, (state, where) in bad_cases.items():
       cases += 1
@@ -207,7 +209,7 @@ def run(tier, seed):
     ser.MAX_CHUNK_SIZE = default_chunk
     return dict(name=NAME, cases=cases, distinct=cases, failures=[], error=traceback.format_exc()[-1500:])
   return dict(name=NAME, cases=cases, distinct=cases,
-              bound=f'{len(dts)} dtypes x 6 shapes x up to 4 layouts = {len(pairs)} arrays; 7 container kinds; thresholds {list(thresholds[:-1])} + default; 7 rejection cases',
+              bound=f'{len(dts)} dtypes x 6 shapes x up to 4 layouts = {len(pairs)} arrays; 7 container kinds; thresholds {list(thresholds[:-1])} + default; 8 rejection cases',
               failures=fails[:3], error=None)
 
 
